@@ -3,3 +3,4 @@ import LicenseExpr.Props.C02
 #print axioms LE.C02_parse
 #print axioms LE.C02_unknown
 #print axioms LE.C02_unknown_extend
+#print axioms LE.C02_text
